@@ -190,7 +190,24 @@ pub fn verify(pm: &mut ParsedMessage, t: &RTail) -> Option<bool> {
 /// call every decoder ezk has on `pm` (used by the no-panic check); returns how many attribute
 /// types were present
 pub fn read_everything(pm: &mut ParsedMessage, key: &RKey) -> usize {
-    let probes = [
+    let probes = probes();
+    let mut n = 0;
+    for p in &probes {
+        if read(pm, p).is_some() {
+            n += 1;
+        }
+    }
+    for t in [RTail::Integrity(key.clone()), RTail::IntegritySha256(key.clone()), RTail::Fingerprint] {
+        if verify(pm, &t).is_some() {
+            n += 1;
+        }
+    }
+    n
+}
+
+/// one value of every attribute type `read` knows (only the type matters)
+pub fn probes() -> Vec<RAttr> {
+    vec![
         RAttr::MappedAddress(RAddr::V4 { ip: [0; 4], port: 0 }),
         RAttr::XorMappedAddress(RAddr::V4 { ip: [0; 4], port: 0 }),
         RAttr::AlternateServer(RAddr::V4 { ip: [0; 4], port: 0 }),
@@ -213,17 +230,5 @@ pub fn read_everything(pm: &mut ParsedMessage, key: &RKey) -> usize {
         RAttr::EvenPort(false),
         RAttr::DontFragment,
         RAttr::ReservationToken(vec![]),
-    ];
-    let mut n = 0;
-    for p in &probes {
-        if read(pm, p).is_some() {
-            n += 1;
-        }
-    }
-    for t in [RTail::Integrity(key.clone()), RTail::IntegritySha256(key.clone()), RTail::Fingerprint] {
-        if verify(pm, &t).is_some() {
-            n += 1;
-        }
-    }
-    n
+    ]
 }
